@@ -7,12 +7,13 @@ set -u
 name=$1
 wt=/tmp/wt/$name; out=/tmp/seed_out/$name
 export JAX_PLATFORMS=cpu PYTHONPATH=$wt/src
+[ -d $wt ] || git -C /repo worktree add -q --detach $wt HEAD
 cd $wt || exit 2
 git -C $wt checkout -q -- . && git -C $wt apply $out/patch.diff || { echo "patch does not apply"; exit 2; }
 /venv/bin/python $out/demo.py > /tmp/seed_out/$name.with.log 2>&1; with=$?
-git -C $wt stash -q
+git -C $wt apply -R $out/patch.diff     # (no git stash: the stash is shared between worktrees)
 /venv/bin/python $out/demo.py > /tmp/seed_out/$name.without.log 2>&1; without=$?
-git -C $wt stash pop -q
+git -C $wt apply $out/patch.diff
 suite=$(cd $wt && timeout 1500 /venv/bin/python -m pytest -q -p no:cacheprovider -n 6 --timeout=900 2>&1 | tail -1)
 failed=$(cd $wt && echo "$suite")
 echo "demo with change: $with ; without: $without ; suite: $suite"
